@@ -122,3 +122,82 @@ def r_engine_stateless(ctx: Ctx, rule: str, engine_rel: str, roots: tuple[str, .
                 fi=f,
                 node=node,
             )
+
+
+# ------------------------------------------------------------------ value-keyed memoisation of functions of relations
+
+
+def _cache_decorator(d: ast.expr) -> str | None:
+    e = d.func if isinstance(d, ast.Call) else d
+    name = src(e).split(".")[-1]
+    return name if name in ("lru_cache", "cache") else None
+
+
+_CACHE_SELF_TEST = '''
+import functools
+class T:
+    @classmethod
+    @functools.lru_cache(maxsize=16)
+    def simplify(cls, target: "Relation", destination: Engine): ...
+    @functools.cache
+    def f(self, x: int): ...
+'''
+
+
+def r_no_value_keyed_cache(ctx: Ctx, rule: str) -> None:
+    """functools.cache / lru_cache key on argument *equality*; relations compare structurally and without payloads,
+    engines... by identity, but a cached result outlives the tree it was computed for."""
+    run, m = ctx.run, ctx.m
+    run.rule(
+        rule,
+        "no function that takes a relation is memoised with functools.cache/lru_cache: the cache is keyed by relation "
+        "equality, which is structural and ignores payloads, messages and row bounds, so a result computed for one tree "
+        "(an identical locked node, a payload-bearing subtree) is handed out for another that merely compares equal",
+        expected_min=1,
+    )
+    rel_names = {c.name for c in m.subclasses(ctx.k.relation_root)} | {"Relation", "BaseRelation"}
+
+    def offenders(tree: ast.AST):
+        out = []
+        for fn in ast.walk(tree):
+            if not isinstance(fn, (ast.FunctionDef, ast.AsyncFunctionDef)):
+                continue
+            deco = [c for c in (_cache_decorator(d) for d in fn.decorator_list) if c]
+            if not deco:
+                continue
+            a = fn.args
+            for arg in a.posonlyargs + a.args + a.kwonlyargs:
+                if arg.arg in ("self", "cls"):
+                    # a cached *method* is keyed by its receiver as well
+                    continue
+                ann = arg.annotation
+                text = ann.value if isinstance(ann, ast.Constant) and isinstance(ann.value, str) else (src(ann) if ann is not None else "")
+                names = set()
+                try:
+                    names = {n.id for n in ast.walk(ast.parse(text, mode="eval")) if isinstance(n, ast.Name)} | {n.attr for n in ast.walk(ast.parse(text, mode="eval")) if isinstance(n, ast.Attribute)} if text else set()
+                except SyntaxError:
+                    names = set()
+                if names & rel_names or arg.arg in ("relation", "target", "lhs", "rhs", "tree"):
+                    out.append((fn, deco[0], arg.arg))
+                    break
+        return out
+
+    probe = offenders(ast.parse(_CACHE_SELF_TEST))
+    if [(f.name, a) for f, _, a in probe] != [("simplify", "target")]:
+        raise AnalysisError("cache self-test: the detector no longer recognises the reference positive/negative pair")
+    n = 0
+    for mod in m.modules.values():
+        found = offenders(mod.tree)
+        for fn, deco, arg in found:
+            n += 1
+            run.fail(
+                rule,
+                f"{mod.rel}:{fn.name}:{deco}",
+                f"`{fn.name}` is memoised with functools.{deco} and takes the relation `{arg}`: two distinct relations that compare equal "
+                "(equal structure, different payloads or leaf objects) share one cached result",
+                file=mod.path,
+                line=fn.lineno,
+                func=fn.name,
+            )
+    if n == 0:
+        run.ok(rule, "package:no-memoised-function-of-relations", {"modules": len(m.modules)})
